@@ -121,11 +121,24 @@ fn check_octal(prefix: &str, text: &str, value: u32, acc: &mut Acc) {
 
 /// The emitted comparison for (kind, bits) must select exactly the files the check names.
 fn check_policy(kind: PermKind, bits: u32, all_modes: bool, acc: &mut Acc) {
+    check_policy_in(kind, bits, all_modes, 0, acc)
+}
+
+/// `context`: 0 = the -perm test alone; 1 = `-type f -a -perm`; 2 = `-perm -a -type d`;
+/// 3 = `-type l -o -perm`.
+fn check_policy_in(kind: PermKind, bits: u32, all_modes: bool, context: u8, acc: &mut Acc) {
     acc.states += 1;
     acc.transitions += 1;
     acc.validated += 1;
-    let tree = Expr::Test(Test::Perm(kind, bits));
-    let wit = || json!({"kind": "perm-policy", "check": format!("{kind:?}"), "bits": bits});
+    let perm = Expr::Test(Test::Perm(kind, bits));
+    let ty = |t| Expr::Test(Test::Type(vec![t]));
+    let tree = match context {
+        0 => perm,
+        1 => Expr::and(ty(FType::File), perm),
+        2 => Expr::and(perm, ty(FType::Dir)),
+        _ => Expr::or(ty(FType::Link), perm),
+    };
+    let wit = || json!({"kind": "perm-policy", "check": format!("{kind:?}"), "bits": bits, "context": context});
     let real = conv::expr_to_real(&tree).unwrap();
     let (text, io) = match compile_render(&real, &subject::options(false, None), "/dev") {
         C::Ok(v) => v,
@@ -159,13 +172,13 @@ fn check_policy(kind: PermKind, bits: u32, all_modes: bool, acc: &mut Acc) {
         }
     };
     for (r, o) in recs.iter().zip(obs.records.iter()) {
-        let want = spec_eval::test(&Test::Perm(kind, bits), r, 0).unwrap();
+        let want = spec_eval::eval(&tree, r, 0).unwrap().truth.unwrap();
         // implicit print: the file is printed exactly when the test holds
         let printed = !o.events.is_empty();
         if printed != want {
             acc.violate(Violation::new(
-                format!("C08:emitted-check-wrong:{kind:?}"),
-                format!("-perm {kind:?} {bits:04o} on a file of mode {:o}: policy selects = {printed}, the check names = {want}", r.mode),
+                format!("C08:emitted-check-wrong:{kind:?}{}", ["", ":next-to-type-test", ":next-to-type-test", ":next-to-type-test"][context as usize]),
+                format!("{} on a file of mode {:o}: policy selects = {printed}, the check names = {want}", tree.show(), r.mode),
                 wit(),
             ));
             return;
@@ -184,6 +197,23 @@ pub fn run(ctx: &Ctx) -> i32 {
             check_octal(p, &format!("{v:03o}"), v, acc);
         }
         check_octal(p, &format!("{v:04o}"), v, acc);
+    }));
+    // five-digit octal arguments above 07777 are not modes: they must be refused, never truncated
+    acc = acc.merge(par_cases((0o100000 - 0o10000) * 3, |i, acc| {
+        let v = 0o10000 + (i / 3) as u32;
+        let p = ["", "-", "/"][(i % 3) as usize];
+        acc.states += 1;
+        acc.transitions += 1;
+        let arg = format!("{p}{v:o}");
+        match real_perm(&arg) {
+            Ok((_, b)) => acc.violate(Violation::new(
+                "C08:octal-above-07777-accepted",
+                format!("-perm {arg} is accepted and denotes {b:04o}; its octal value {v:o} is not a permission mode"),
+                json!({"kind": "perm-arg", "arg": arg}),
+            )),
+            Err(e) if e.starts_with("panic") => acc.violate(Violation::new(format!("C08:panic:{}", panic_site(&e[7..])), format!("-perm {arg}: {e}"), json!({"kind": "perm-arg", "arg": arg}))),
+            Err(_) => {}
+        }
     }));
     // single clauses under every prefix
     acc = acc.merge(par_cases(cl.len() as u64 * 3, |i, acc| {
@@ -243,9 +273,27 @@ pub fn run(ctx: &Ctx) -> i32 {
         }
         acc = acc.merge(o);
     }
+    // long clause lists: n clauses taken cyclically from the alphabet with a stride
+    let long_cases: Vec<(usize, usize, usize)> = [7usize, 8, 16, 17, 32, 33, 64, 65, 100, 128, 129, 255, 256, 257]
+        .iter()
+        .flat_map(|n| [1usize, 7, 31, 101].into_iter().flat_map(move |stride| [0usize, 5, 200].into_iter().map(move |start| (*n, stride, start))))
+        .collect();
+    acc = acc.merge(par_items(&long_cases, |(n, stride, start), acc| {
+        let list: Vec<&Clause> = (0..*n).map(|k| &cl[(start + k * stride) % cl.len()]).collect();
+        for p in ["", "-", "/"] {
+            check_list(p, &list, acc);
+        }
+    }));
     // emitted comparisons
     let kinds = [PermKind::Equal, PermKind::AtLeast, PermKind::Any];
     acc = acc.merge(par_cases(4096 * 3, |i, acc| check_policy(kinds[(i % 3) as usize], (i / 3) as u32, false, acc)));
+    // the same check as a direct neighbour of a -type test, in both orders and under OR
+    acc = acc.merge(par_cases(512 * 3 * 3, |i, acc| {
+        let ctx = 1 + (i % 3) as u8;
+        let kind = kinds[((i / 3) % 3) as usize];
+        let bits = ((i / 9) as u32 * 8 + (i % 7) as u32) & 0o7777;
+        check_policy_in(kind, bits, false, ctx, acc);
+    }));
     if ctx.tier == Tier::Thorough {
         let reps: Vec<u32> = (0..64).map(|k| (k * 65 + (k % 7) * 512) as u32 & 0o7777).collect();
         let items: Vec<(PermKind, u32)> = kinds.iter().flat_map(|k| reps.iter().map(move |b| (*k, *b))).collect();
@@ -262,7 +310,7 @@ pub fn run(ctx: &Ctx) -> i32 {
             level: "model_checking",
             exhaustive: true,
             rule: "octal: every value x spelling x prefix; symbolic: the clause fold is a transition system on the 512 rwx modes: BFS over reference-reachable modes, each reached by a witness clause list confirmed against the real parser, and from every state every one of the 315 clauses is applied through the real parser and compared with chmod's algebra (all state x transition pairs); the emitted comparison for every (check kind, 12-bit mode) is executed by the runtime model on modes differing in each single bit, for three file types; distinct = distinct modes produced".into(),
-            bound: format!("4096 octal values x (3|4 digits) x 3 prefixes; 315 single clauses x 3 prefixes; all 99225 two-clause lists{}; {reach} reachable modes x 315 clauses; 3 check kinds x 4096 modes executed on 16 directed modes x 3 file types{}", if ctx.tier == Tier::Thorough { " under all three prefixes; all 91125 three-clause lists over 45 clauses" } else { " under all three prefixes" }, if ctx.tier == Tier::Thorough { "; 192 checks executed on all 4096 modes x 3 types" } else { "" }),
+            bound: format!("4096 octal values x (3|4 digits) x 3 prefixes; all 28672 five-digit values above 07777 x 3 prefixes (must be refused); 315 single clauses x 3 prefixes; all 99225 two-clause lists{}; clause lists of 7..257 clauses (4 strides x 3 starting points x 3 prefixes); {reach} reachable modes x 315 clauses; 3 check kinds x 4096 modes executed on 16 directed modes x 3 file types{}", if ctx.tier == Tier::Thorough { " under all three prefixes; all 91125 three-clause lists over 45 clauses" } else { " under all three prefixes" }, if ctx.tier == Tier::Thorough { "; 192 checks executed on all 4096 modes x 3 types" } else { "" }),
             assumptions: vec![
                 "chmod(1) algebra from mode 0 for the supported clause subset [ugoa]+[+-=][rwx]+".into(),
                 "-perm /000 is judged by the rule as stated ('/' = any given bit set: no bit given, no file matches)".into(),
@@ -280,7 +328,7 @@ pub fn replay(w: &Value) -> Vec<Violation> {
             Some("Any") => PermKind::Any,
             _ => PermKind::Equal,
         };
-        check_policy(kind, w["bits"].as_u64().unwrap_or(0) as u32, true, &mut acc);
+        check_policy_in(kind, w["bits"].as_u64().unwrap_or(0) as u32, true, w["context"].as_u64().unwrap_or(0) as u8, &mut acc);
     } else if let Some(arg) = w["arg"].as_str() {
         let (prefix, body) = if let Some(r) = arg.strip_prefix('-') {
             ("-", r)
